@@ -26,7 +26,7 @@ builder for which this can fail is a dictionary with non-nullable keys: its plac
 designates nothing while the dictionary is empty and the first value pushed later on (the row is hidden below a
 null ancestor in the finished array, but `dec` of the dictionary builder itself is not append-only). -/
 def DefSafe : B → Prop
-  | .dictionary _ idx _ _ => idx.isNullable = true
+  | .dictionary _ idx _ _ => idx.isNullable = true ∧ DefSafe idx
   | .struct _ _ _ fs _ _ _ => DefSafeL fs
   | .fixedSizeList _ _ _ _ _ _ el => DefSafe el
   | .union _ fs _ _ _ => DefSafeHead fs
